@@ -486,7 +486,23 @@ int vx_vsnprintf_long(char* out, uint64_t n, const char* f, va_list ap) {
 }
 #ifndef VX_NATIVE_SELFTEST
 int snprintf(void* buf, uint64_t n, void* fmt, ...) { va_list ap; va_start(ap, fmt); int r = vx_vsnprintf_long((char*)buf, n, (const char*)fmt, ap); va_end(ap); return r; }
-int fprintf(void* f, void* fmt, ...) { vx_io_log(f, (const char*)fmt, 1); return 0; }     /* formatted text: logged as one byte (the first of the format) */
+/* fprintf: literal characters, %% and %s / %d / %u / %c are rendered; any other conversion writes nothing (its output is not part of
+ * any assertion). A caller that passes data as the format string is therefore visible: the data's % sequences are interpreted. */
+int fprintf(void* f, void* fmt, ...) {
+  const char* p = (const char*)fmt; char out[40]; long n = 0; va_list ap; va_start(ap, fmt);
+  for (int g = 0; g < 32 && *p; ++g, ++p) {
+    if (*p != '%') { if (n < 40) out[n] = *p; ++n; continue; }
+    ++p;
+    if (*p == 0) break;
+    if (*p == '%') { if (n < 40) out[n] = '%'; ++n; }
+    else if (*p == 'c') { int c = va_arg(ap, int); if (n < 40) out[n] = (char)c; ++n; }
+    else if (*p == 's') { const char* a = va_arg(ap, const char*); for (int k = 0; k < 16 && a && a[k]; ++k) { if (n < 40) out[n] = a[k]; ++n; } }
+    else if (*p == 'd' || *p == 'u') { unsigned v = va_arg(ap, unsigned); (void)v; if (n < 40) out[n] = '#'; ++n; }
+  }
+  va_end(ap);
+  vx_io_log(f, out, n < 40 ? n : 40);
+  return (int)n;
+}
 uint64_t fwrite(void* p, uint64_t s, uint64_t n, void* f) { vx_io_log(f, (const char*)p, (long)(s * n)); return n; }
 
 #endif
